@@ -18,7 +18,7 @@ structure Scenario where
   bodies : List Char
   sched : List Step
 
-def parseParams (s : String) : Option (Int × Int × Nat × Nat) := do
+def parseParams (s : String) : Option (Int × Int × Nat × Nat × Nat × Nat) := do
   let kvs ← (s.splitOn ",").mapM fun f =>
     match f.splitOn "=" with
     | [k, v] => v.toInt?.map fun n => (k, n)
@@ -27,10 +27,12 @@ def parseParams (s : String) : Option (Int × Int × Nat × Nat) := do
   let rm ← get "rm"
   let cr ← get "cr"
   let rl ← get "rl"
-  let w ← get "w"
+  let h ← get "h"
+  let bm ← get "bm"
+  let fn ← get "fn"
   let _ ← get "ip"
-  if kvs.length != 5 || rl < 0 || w < 0 then none else
-  some (rm, cr, rl.toNat, w.toNat)
+  if kvs.length != 7 || rl < 0 || h < 0 || bm < 0 || bm > 2 || fn < 0 then none else
+  some (rm, cr, rl.toNat, h.toNat, bm.toNat, fn.toNat)
 
 def parseBacks : List Char → Option (List Back)
   | [] => some []
@@ -52,7 +54,8 @@ def parseSub (s : String) : Option Sub :=
 def parseRt (c : Char) : Option Rt :=
   if c == '2' then some (.ok 200) else if c == '5' then some (.ok 503)
   else if c == 'c' || c == 'C' then some .connect
-  else if c == 'w' || c == 'v' || c == 'W' then some .write
+  else if c == 'w' || c == 'W' then some .write
+  else if c == 'v' then some .writeT
   else if c == 'h' || c == 'H' then some .rhdr
   else if c == 't' then some .timeout
   else if c == 'b' then some .broken
@@ -64,6 +67,10 @@ def parseAttempt (s : String) : Option Attempt :=
   | [f, r] =>
     if f == 'g' || f == 'r' || f == 'p' || f == 'c' then (parseRt r).map fun x => ⟨.goon, x⟩
     else if f == 'f' then (parseRt r).map fun x => ⟨.finish, x⟩
+    else if f == 'x' then (parseRt r).map fun x => ⟨.replace 0, x⟩
+    else if f == 'y' then (parseRt r).map fun x => ⟨.replace 1, x⟩
+    else if f == 'z' then (parseRt r).map fun x => ⟨.replace 2, x⟩
+    else if f == 'u' then (parseRt r).map fun x => ⟨.replace 3, x⟩
     else none
   | _ => none
 
@@ -93,21 +100,18 @@ def parseStep (n : Nat) (s : String) : Option Step :=
 def parseOp (op : String) : Option Scenario :=
   match op.splitOn "/" with
   | [p, ss, rs, sc] => do
-    let (rm, cr, rl, w) ← parseParams p
+    let (rm, cr, rl, h, bm, fn) ← parseParams p
     let subs ← (ss.splitOn ";").mapM parseSub
     let reqs ← (rs.splitOn ";").mapM parseReq
     let sched ← (sc.splitOn ".").mapM (parseStep reqs.length)
     if subs.length > 8 || reqs.length > 8 then none else
-    some ⟨⟨rm, cr, rl, w, subs⟩, reqs.map (·.1), reqs.map (·.2.1), reqs.map (·.2.2), sched⟩
+    some ⟨⟨rm, cr, rl, h, bm, fn, subs⟩, reqs.map (·.1), reqs.map (·.2.1), reqs.map (·.2.2), sched⟩
   | _ => none
 
 /-! ### rendering of the model result (must equal the harness' format byte for byte) -/
 
 def label (cfg : Cfg) (b : Nat) : String :=
   (cfg.subs.getD (b / 8) default).name ++ toString (b % 8)
-
-def allBids (cfg : Cfg) : List Nat :=
-  (cfg.subs.zipIdx.map fun (s, i) => (List.range s.backs.length).map fun j => bid i j).flatten
 
 def renderConn (cfg : Cfg) (conn : Nat → Int) : String :=
   let parts := (allBids cfg).filterMap fun b =>
@@ -123,12 +127,14 @@ def Ec.str : Ec → String
   | .none => "nil" | .connect => "connect" | .write => "write" | .rhdr => "rhdr" | .timeout => "timeout"
   | .broken => "broken" | .blackhole => "blackhole" | .nobackend => "nobackend" | .nosubcross => "nosubcross"
 
-def renderEv (cfg : Cfg) : Ev → String
-  | .rt b _ _ snap _ => label cfg b ++ "@" ++ renderConn cfg snap
+/-- `pick` = the backend Balance returned for this event; shown as `pick~b` when the callback replaced it -/
+def renderEv (cfg : Cfg) (pick : Nat) : Ev → String
+  | .rt b _ _ snap _ =>
+    (if pick != b then label cfg pick ++ "~" else "") ++ label cfg b ++ "@" ++ renderConn cfg snap
   | .fin b _ => label cfg b ++ "F"
 
 def renderInv (cfg : Cfg) (k : Nat) (r : LR) : String :=
-  "i" ++ toString k ++ ":" ++ ",".intercalate (r.evs.map (renderEv cfg)) ++
+  "i" ++ toString k ++ ":" ++ ",".intercalate ((r.evs.zip r.st.picks.reverse).map fun (e, pk) => renderEv cfg pk e) ++
   ">res=" ++ (match r.res with | some s => toString s | none => "nil") ++
   ",err=" ++ r.err.str ++ ",act=" ++ toString r.act ++
   ";rt=" ++ toString r.st.retry ++ ";ec=" ++ r.st.ec.str ++
@@ -166,12 +172,12 @@ def runResolved (sc : Scenario) (implSteps : List String) : G × List (List Nat)
         | .fin _ => []
         | .inv _ =>
           match space.find? fun ch =>
-              match (step sc.cfg sc.reqs g st ch).outs with
+              match (step realPolicy sc.cfg sc.reqs g st ch).outs with
               | o :: _ => renderOut sc.cfg o == want
               | [] => false with
           | some ch => ch
           | none => space.headD []
-      go (step sc.cfg sc.reqs g st pick) rest impl.tail (pick :: acc)
+      go (step realPolicy sc.cfg sc.reqs g st pick) rest impl.tail (pick :: acc)
   go (G.init sc.cfg sc.reqs.length) sc.sched implSteps []
 
 def renderG (cfg : Cfg) (g : G) : String :=
@@ -181,7 +187,8 @@ def renderG (cfg : Cfg) (g : G) : String :=
 /-! ### the implementation's result line, parsed for the spec oracles -/
 
 structure IEv where
-  label : String
+  label : String        -- backend the request was sent to
+  pick : String         -- backend Balance had returned (differs when the callback replaced it)
   fin : Bool
   snap : List (String × Int)
 
@@ -203,8 +210,11 @@ def parseSnap (s : String) : Option (List (String × Int)) :=
 
 def parseIEv (s : String) : Option IEv :=
   match s.splitOn "@" with
-  | [l, sn] => (parseSnap sn).map fun x => ⟨l, false, x⟩
-  | [l] => if l.endsWith "F" then some ⟨(l.dropEnd 1).toString, true, []⟩ else none
+  | [l, sn] =>
+    match l.splitOn "~" with
+    | [pk, nl] => (parseSnap sn).map fun x => ⟨nl, pk, false, x⟩
+    | _ => (parseSnap sn).map fun x => ⟨l, l, false, x⟩
+  | [l] => if l.endsWith "F" then some ⟨(l.dropEnd 1).toString, (l.dropEnd 1).toString, true, []⟩ else none
   | _ => none
 
 def fieldAfter (pre : String) (fs : List String) : Option String :=
